@@ -328,6 +328,14 @@ func (m *StateMachine) handleHeightCommitted(ctx context.Context, rlc *tsi.Round
 
 	rlc.CommitWaitElapsed = true
 
+	if rlc.S != tsi.StepCommitWait && rlc.S != tsi.StepAwaitingFinalization {
+		// The mirror committed this height before we handled the view update that shows the commit:
+		// both were ready and the select took this signal first.
+		// We are not waiting on a commit yet, so there is no wait to cut short;
+		// the pending view update begins the commit and its wait timer runs normally.
+		return true
+	}
+
 	if rlc.CancelTimer != nil {
 		rlc.CancelTimer()
 	}
